@@ -222,8 +222,10 @@ impl Archive {
         let mut blocks = HashSet::new();
         for band_id in band_ids {
             let band = Band::open(&archive, *band_id).await?;
-            let mut iter = band.index().iter_available_hunks().await;
-            while let Some(hunk) = iter.next().await {
+            // Any index hunk that can't be listed or read must stop us here: treating it
+            // as referencing nothing would let the caller delete blocks that are in use.
+            let mut iter = band.index().try_iter_available_hunks().await?;
+            while let Some(hunk) = iter.try_next().await? {
                 for addr in hunk.into_iter().flat_map(|entry| entry.addrs) {
                     blocks.insert(addr.hash);
                     task.increment(1);
